@@ -19,13 +19,14 @@ import (
 )
 
 type c08Plugin struct {
-	p        *rig.Plugin
-	pos      int
-	mu       sync.Mutex
-	snapshot map[string]int
-	created  map[string]int
-	synced   int
-	failSync bool // its Synchronize handler fails: it never completes registration
+	p          *rig.Plugin
+	pos        int
+	mu         sync.Mutex
+	snapshot   map[string]int
+	created    map[string]int
+	synced     int
+	failSync   bool // its Synchronize handler fails: it never completes registration
+	connectErr error
 }
 
 func runC08Round(dir string, g *rand.Rand, creators, nplugins, perCreator, failing int, res *ev.Result, tag string, hookOn bool) {
@@ -128,7 +129,16 @@ func runC08Round(dir string, g *rand.Rand, creators, nplugins, perCreator, faili
 	var allSynced atomic.Bool
 	go func() {
 		for _, cp := range plugins {
-			<-cp.p.Synced
+			for synced := false; !synced; {
+				select {
+				case <-cp.p.Synced:
+					synced = true
+				case <-time.After(50 * time.Millisecond):
+					cp.mu.Lock()
+					synced = cp.connectErr != nil
+					cp.mu.Unlock()
+				}
+			}
 		}
 		allSynced.Store(true)
 	}()
@@ -181,7 +191,13 @@ func runC08Round(dir string, g *rand.Rand, creators, nplugins, perCreator, faili
 			defer pwg.Done()
 			time.Sleep(delays[cp.pos])
 			if err := cp.p.Connect(rt.Sock); err != nil {
-				res.Note("%s connect: %v", tag, err)
+				// the stub's own registration timeout (5 s, not configurable before the first configuration) can
+				// expire on a starved machine while the runtime's serial accept loop is busy: such a plugin never
+				// completed registration; the round says nothing about it
+				cp.mu.Lock()
+				cp.connectErr = err
+				cp.mu.Unlock()
+				res.Note("%s: plugin %d did not get started: %v", tag, cp.pos, err)
 			}
 		}()
 	}
@@ -198,6 +214,13 @@ func runC08Round(dir string, g *rand.Rand, creators, nplugins, perCreator, faili
 	}
 	// once the last block is released, pending registrations complete
 	for _, cp := range plugins {
+		cp.mu.Lock()
+		failed := cp.connectErr != nil
+		cp.mu.Unlock()
+		if failed {
+			res.Inconcl()
+			continue
+		}
 		if st := rig.Await(cp.p.Synced, 5*time.Second, 60*time.Second); st == "hang" {
 			res.Violate("C08/registration-stuck", fmt.Sprintf("plugin %d was not synchronized although no sync block is held any more; goroutines:\n%s", cp.pos, nriStacks()), what)
 			return
@@ -229,6 +252,10 @@ func runC08Round(dir string, g *rand.Rand, creators, nplugins, perCreator, faili
 	overl := 0
 	for _, cp := range plugins {
 		cp.mu.Lock()
+		if cp.connectErr != nil {
+			cp.mu.Unlock()
+			continue
+		}
 		if cp.failSync {
 			if len(cp.created) > 0 {
 				res.Violate("C08/activated-after-failed-sync", fmt.Sprintf("plugin %d failed its synchronization yet received %d creation requests", cp.pos, len(cp.created)), what)
